@@ -98,7 +98,7 @@ macro_rules! impl_bit_value {
                 if val & (1 << (len - 1)) == 0 {
                     val
                 } else {
-                    ((!val) + 1) | (1 << (len - 1))
+                    val.wrapping_neg() | (1 << (len - 1))
                 }
             }
         }
